@@ -1,107 +1,164 @@
 (* C15 property theorems.  Statements only; proofs are in Proofs.v.
 
-   H (preimage -> payment hash) and the registry configuration g are universally
-   quantified; `run H g init evs` executes ANY sequence of registry calls
-   (AddInvoice, NotifyExitHopHtlc incl. replays, SettleHodlInvoice,
-   CancelInvoice / expiry, single-htlc set timeout) from the empty registry.
-   Amount sums are uint64 sums (wsum = true sum mod 2^64, Proofs.wsum_tsum);
-   height sums are uint32 (u32).  AMP sets are outside the model (notes/C15.md). *)
+   H (preimage -> payment hash), R (amp.ReconstructChildren: child descriptors
+   -> derived (hash, preimage) pairs; NO hypothesis on it) and the registry
+   configuration g are universally quantified; `run H R g init evs` executes
+   ANY sequence of registry calls (AddInvoice, NotifyExitHopHtlc incl. replays,
+   AMP sets and spontaneous AMP, SettleHodlInvoice, CancelInvoice / expiry,
+   single-htlc set timeout by hash/address or by AMP set id) from the empty
+   registry.  Amount sums are uint64 sums (wsum = true sum mod 2^64,
+   Proofs.wsum_tsum); height sums are uint32 (u32). *)
 From Coq Require Import List NArith ZArith Bool.
 From LV Require Import Invoice.Model Invoice.Proofs.
 Import ListNotations.
 
+(* what a settled record (k, h) on invoice i guarantees.
+   Non-AMP invoice (unchanged statement): the invoice is settled with preimage
+   p, p hashes to the payment hash the htlc arrived with (= the invoice's), the
+   htlc carried the invoice's payment address (or none is required / it was a
+   valid keysend), it left both final-CLTV margins when accepted, and it is
+   fully paid: a legacy htlc pays the invoice value alone; an MPP htlc declares
+   a total not below the value that all settled MPP htlcs of the invoice share
+   and their amounts sum to at least that total.
+   AMP invoice: p is the htlc's OWN reconstructed preimage and the code checked
+   H p = the htlc's payment hash; the htlc carried a set id and the invoice's
+   payment address, left both margins, declares a total not below the invoice
+   value; the htlcs that were settled together with it (same arrival `h_gen`)
+   all belong to its set id and declare its total, and their amounts sum to at
+   least that total.  (The invoice itself stays open -- or was cancelled
+   later; AMP invoices never become settled.) *)
+Definition paid_in_full (H : N -> N) (g : cfg) (i : invoice) (h : htlc) (p : N) : Prop :=
+  H p = h_hash h /\
+  (u32 (h_height h + g_rd g) <= h_expiry h)%Z /\
+  (u32 (h_height h + i_delta i) <= h_expiry h)%Z /\
+  if i_amp i then
+    h_pre h = Some p /\ (exists s, h_set h = Some s) /\ h_addr h = Some (i_addr i) /\
+    h_total h <> 0%N /\ (i_value i <= h_total h)%N /\
+    (forall k' h', In (k', h') (i_htlcs i) -> h_state h' = HSettled -> h_gen h' = h_gen h ->
+                   h_set h' = h_set h /\ h_total h' = h_total h) /\
+    (h_total h <= wsum (batch (h_gen h)) (i_htlcs i))%N
+  else
+    i_state i = CSettled /\ i_pre i = Some p /\ i_hash i = h_hash h /\
+    match h_addr h with
+    | Some a => a = i_addr i
+    | None => i_addr_req i = false \/ h_ks h = true
+    end /\
+    (h_total h = 0%N -> (i_value i <= h_amt h)%N) /\
+    (h_total h <> 0%N ->
+       (i_value i <= h_total h)%N /\
+       (forall k' h', In (k', h') (i_htlcs i) -> h_state h' = HSettled ->
+                      h_total h' <> 0%N -> h_total h' = h_total h) /\
+       (h_total h <= wsum (fun x => is_state HSettled x && negb (N.eqb (h_total x) 0))
+                          (i_htlcs i))%N).
+
+Definition settle_backed (H : N -> N) (g : cfg) (st : state) (k p : N) : Prop :=
+  exists i h, In i (invs st) /\ In (k, h) (i_htlcs i) /\ h_state h = HSettled /\
+              paid_in_full H g i h p.
+
 (* Whenever a step hands out a Settle resolution (directly or on a hodl
-   channel) for htlc k with preimage p, then in the state after that step k is
-   recorded settled on a settled invoice whose preimage is p, p hashes to the
-   payment hash the htlc arrived with (= the invoice's), the htlc carried the
-   invoice's payment address (or none is required / it was a valid keysend),
-   it left both final-CLTV margins when accepted, and it is fully paid: a
-   legacy htlc pays the invoice value alone; an MPP htlc declares a total not
-   below the value that all settled MPP htlcs of the invoice share and their
-   amounts sum to at least that total. *)
+   channel) for htlc k with preimage p, k is recorded settled and paid in full
+   (above) in the state after that step.  Only on the KV store (g_kv) the
+   record may instead be one of a reachable earlier state: a notification for
+   an older record of an AMP set whose stored set the KV store has just
+   rewritten (finding C15-F2, C15_amp_kv_reuse_refuted). *)
 Theorem C15_settle_sound :
-  forall (H : N -> N) (g : cfg) (evs : list event) (e : event)
+  forall (H : N -> N) (R : list (N * N) -> list (N * N)) (g : cfg) (evs : list event) (e : event)
          (st st' : state) (outs : list (reply * list resn)) (o : reply * list resn) (k p : N),
-    run H g init evs = (st, outs) ->
-    step H g st e = (st', o) ->
+    run H R g init evs = (st, outs) ->
+    step H R g st e = (st', o) ->
     In (k, p) (settle_outs o) ->
-    exists i h,
-      In i (invs st') /\ In (k, h) (i_htlcs i) /\ h_state h = HSettled /\
-      i_state i = CSettled /\ i_pre i = Some p /\ H p = h_hash h /\ i_hash i = h_hash h /\
-      match h_addr h with
-      | Some a => a = i_addr i
-      | None => i_addr_req i = false \/ h_ks h = true
-      end /\
-      (u32 (h_height h + g_rd g) <= h_expiry h)%Z /\
-      (u32 (h_height h + i_delta i) <= h_expiry h)%Z /\
-      (h_total h = 0%N -> (i_value i <= h_amt h)%N) /\
-      (h_total h <> 0%N ->
-         (i_value i <= h_total h)%N /\
-         (forall k' h', In (k', h') (i_htlcs i) -> h_state h' = HSettled ->
-                        h_total h' <> 0%N -> h_total h' = h_total h) /\
-         (h_total h <= wsum (fun x => is_state HSettled x && negb (N.eqb (h_total x) 0))
-                            (i_htlcs i))%N).
+    settle_backed H g st' k p \/
+    (g_kv g = true /\ exists st1, state_ok H g st1 /\ settle_backed H g st1 k p).
 Proof.
-  intros H g evs e st st' outs o k p R S I.
+  intros H R g evs e st st' outs o k p RR S I.
   assert (SO : state_ok H g st) by (eapply run_ok; [apply init_ok|eauto]).
   assert (SO' : state_ok H g st') by (eapply step_ok; eauto).
-  destruct (step_settles H g st e st' o k p SO S I) as [i [h [II [IH [HS P]]]]].
-  destruct (settled_record_sound H g st' i k h SO' II IH HS)
-    as (A1 & [p' (P1 & P2 & P3)] & A3 & A4 & A5 & A6 & A7).
-  exists i, h. rewrite P in P1. inversion P1; subst p'. repeat split; auto.
-  - apply A7; auto.
-  - apply A7; auto.
-  - apply A7; auto.
+  assert (B : forall s, state_ok H g s -> settled_in (invs s) k p -> settle_backed H g s k p).
+  { intros s SS [i [h [II [IH [HS P]]]]]. exists i, h. repeat split; auto;
+      unfold paid_in_full; destruct (i_amp i) eqn:IA.
+    - destruct (settled_record_sound_amp H g s i k h SS II IA IH HS)
+        as (_ & [p' [P1 P2]] & _). congruence.
+    - destruct (settled_record_sound H g s i k h SS II IA IH HS)
+        as (_ & [p' (P1 & P2 & P3)] & _). congruence.
+    - destruct (settled_record_sound_amp H g s i k h SS II IA IH HS) as (_ & _ & _ & _ & A & _). exact A.
+    - destruct (settled_record_sound H g s i k h SS II IA IH HS) as (_ & _ & _ & A & _). exact A.
+    - destruct (settled_record_sound_amp H g s i k h SS II IA IH HS) as (_ & _ & _ & _ & _ & A & _). exact A.
+    - destruct (settled_record_sound H g s i k h SS II IA IH HS) as (_ & _ & _ & _ & A & _). exact A.
+    - destruct (settled_record_sound_amp H g s i k h SS II IA IH HS)
+        as (_ & _ & A3 & A4 & _ & _ & A7 & A8 & A9 & A10).
+      exact (conj P (conj A3 (conj A4 (conj A7 (conj A8 (conj A9 A10)))))).
+    - destruct (settled_record_sound H g s i k h SS II IA IH HS)
+        as (A1 & [p' (P1 & P2 & P3)] & A3 & _ & _ & A6 & A7).
+      rewrite P in P1. inversion P1; subst p'. repeat split; auto; apply A7; auto. }
+  destruct (step_settles H R g st e st' o k p SO S I) as [X|[KV [st1 [S1 X]]]].
+  - left. apply B; auto.
+  - right. split; [auto|]. exists st1. split; [auto|]. apply B; auto.
 Qed.
 
 (* Invoice and htlc states only move forward along any continuation of any
    history: open -> accepted -> {settled | canceled} for invoices, accepted ->
    {settled | canceled} for htlcs; no invoice or htlc record disappears, the
-   recorded amounts/total/expiry/accept height never change, and a settled
-   invoice keeps its preimage. *)
+   recorded amounts/total/expiry/accept height/hash/set id never change, and a
+   settled invoice keeps its preimage.  AMP invoices move open -> canceled only
+   and their htlcs are settled per set.  Exception, stated in `inv_le`: on the
+   KV store (g_kv g = true) nothing is claimed about the htlc records of AMP
+   invoices -- C15_amp_kv_reuse_refuted shows that a settled record can vanish
+   there (finding C15-F2); on the SQL store the clause holds for them too. *)
 Theorem C15_monotone :
-  forall (H : N -> N) (g : cfg) (evs1 evs2 : list event) (st1 st2 : state) o1 o2,
-    run H g init evs1 = (st1, o1) ->
-    run H g st1 evs2 = (st2, o2) ->
-    state_le (invs st1) (invs st2).
+  forall (H : N -> N) (R : list (N * N) -> list (N * N)) (g : cfg) (evs1 evs2 : list event)
+         (st1 st2 : state) o1 o2,
+    run H R g init evs1 = (st1, o1) ->
+    run H R g st1 evs2 = (st2, o2) ->
+    state_le (g_kv g) (invs st1) (invs st2).
 Proof.
-  intros H g evs1 evs2 st1 st2 o1 o2 R1 R2.
+  intros H R g evs1 evs2 st1 st2 o1 o2 R1 R2.
   eapply run_le; [|eauto]. eapply run_ok; [apply init_ok|eauto].
 Qed.
 
-(* A settled invoice records as amount paid exactly the (uint64) sum of its
-   settled htlcs; without uint64 overflow that is the true sum. *)
+(* A settled (non-AMP) invoice records as amount paid exactly the (uint64) sum
+   of its settled htlcs; without uint64 overflow that is the true sum.
+   (AMP invoices never become settled; their AmtPaid is the running total
+   Σ accepted+settled htlc amounts across all sets, AMPState[set].AmtPaid the
+   same per set: checked on the implementation trace and by the differential
+   run only -- no theorem, see notes/C15.md.) *)
 Theorem C15_amt_paid :
-  forall (H : N -> N) (g : cfg) (evs : list event) (st : state) outs (i : invoice),
-    run H g init evs = (st, outs) -> In i (invs st) -> i_state i = CSettled ->
+  forall (H : N -> N) (R : list (N * N) -> list (N * N)) (g : cfg) (evs : list event)
+         (st : state) outs (i : invoice),
+    run H R g init evs = (st, outs) -> In i (invs st) -> i_state i = CSettled ->
+    i_amp i = false /\
     i_paid i = wsum (is_state HSettled) (i_htlcs i) /\
     i_paid i = (tsum (is_state HSettled) (i_htlcs i) mod W64)%N /\
     ((tsum (is_state HSettled) (i_htlcs i) < W64)%N ->
      i_paid i = tsum (is_state HSettled) (i_htlcs i)).
 Proof.
-  intros H g evs st outs i R I S.
+  intros H R g evs st outs i RR I S.
   assert (SO : state_ok H g st) by (eapply run_ok; [apply init_ok|eauto]).
-  destruct SO as [_ OK]. destruct (ok_settled H g i (OK i I) S) as [_ [p [_ [_ E]]]].
-  split; [exact E|]. split.
-  - rewrite E. apply wsum_tsum.
-  - intro X. rewrite E. apply wsum_no_overflow. exact X.
+  destruct SO as [_ OK]. specialize (OK i I). unfold ok in OK.
+  destruct (i_amp i) eqn:IA.
+  - exfalso. destruct (ao_state H g i OK); congruence.
+  - split; [reflexivity|].
+    destruct (ok_settled H g i OK S) as [_ [p [_ [_ E]]]].
+    split; [exact E|]. split.
+    + rewrite E. apply wsum_tsum.
+    + intro X. rewrite E. apply wsum_no_overflow. exact X.
 Qed.
 
 (* A replay of an htlc that is recorded on its (non-AMP) invoice changes no
    invoice and is answered from the record: held if accepted, the fail
    resolution if canceled, and the invoice's preimage -- which hashes to the
-   htlc's payment hash -- if settled.  Hypothesis: no just-in-time keysend
-   pre-check applies (AcceptKeySend off, or no keysend record); with it the
-   clause is REFUTED, see C15_replay_keysend_refuted. *)
+   htlc's payment hash -- if settled.  Hypothesis: no just-in-time pre-check
+   applies (AcceptKeySend off or no keysend record; AcceptAMP off or no AMP
+   record); with it the clause is REFUTED, see C15_replay_keysend_refuted. *)
 Theorem C15_replay_same_verdict :
-  forall (H : N -> N) (g : cfg) (evs : list event) (st st' : state) outs
-         (c : hctx) (i : invoice) (h : htlc) rp ntf,
-    run H g init evs = (st, outs) ->
+  forall (H : N -> N) (R : list (N * N) -> list (N * N)) (g : cfg) (evs : list event)
+         (st st' : state) outs (c : hctx) (i : invoice) (h : htlc) rp ntf,
+    run H R g init evs = (st, outs) ->
     g_keysend g = false \/ c_ks c = KSNone ->
+    g_amp g = false \/ c_amp c = false ->
     lookup_ref (g_kv g) (invs st) (fst (ctx_ref c)) (snd (ctx_ref c)) = Some i ->
     fst (ctx_ref c) = Some (c_hash c) -> i_amp i = false ->
     find_htlc (c_key c) (i_htlcs i) = Some h ->
-    notify H g st c = (st', (rp, ntf)) ->
+    notify H R g st c = (st', (rp, ntf)) ->
     invs st' = invs st /\
     match h_state h with
     | HAccepted => rp = RpDirect DNil
@@ -110,7 +167,32 @@ Theorem C15_replay_same_verdict :
                             rp = RpDirect (DRes (NSettle (c_key c) p (c_height c) S_ReplayToSettled))
     end.
 Proof.
-  intros H g evs st st' outs c i h rp ntf R. apply replay_same_verdict.
+  intros H R g evs st st' outs c i h rp ntf RR. apply replay_same_verdict.
+  eapply run_ok; [apply init_ok|eauto].
+Qed.
+
+(* The same for an AMP htlc (AMP + MPP record, same set id and payment hash as
+   recorded) found in its set on its AMP invoice, AcceptAMP off: no invoice
+   changes, and a settled htlc is answered with ITS OWN recorded preimage,
+   which hashes to its payment hash. *)
+Theorem C15_replay_same_verdict_amp :
+  forall (H : N -> N) (R : list (N * N) -> list (N * N)) (g : cfg) (evs : list event)
+         (st st' : state) outs (c : hctx) (i : invoice) (h : htlc) (a t : N) rp ntf,
+    run H R g init evs = (st, outs) ->
+    g_amp g = false ->
+    c_amp c = true -> c_mpp c = Some (a, t) -> c_path c = None ->
+    lookup_ref (g_kv g) (invs st) None (Some a) = Some i -> i_amp i = true ->
+    find_htlc (c_key c) (i_htlcs i) = Some h -> h_set h = Some (c_set c) -> h_hash h = c_hash c ->
+    notify H R g st c = (st', (rp, ntf)) ->
+    invs st' = invs st /\
+    match h_state h with
+    | HAccepted => rp = RpDirect DNil
+    | HCanceled => rp = RpDirect (DRes (NFail (c_key c) (h_height h) F_ReplayToCanceled))
+    | HSettled => exists p, h_pre h = Some p /\ H p = c_hash c /\
+                            rp = RpDirect (DRes (NSettle (c_key c) p (c_height c) S_ReplayToSettled))
+    end.
+Proof.
+  intros H R g evs st st' outs c i h a t rp ntf RR. apply replay_same_verdict_amp.
   eapply run_ok; [apply init_ok|eauto].
 Qed.
 
@@ -118,35 +200,84 @@ Qed.
    keysend invoice runs before the replay lookup, so a replay of a SETTLED htlc
    at a later height is answered Fail(ResultKeySendError). *)
 Theorem C15_replay_keysend_refuted :
-  exists (H : N -> N) (g : cfg) (evs : list event) (c : hctx),
-    let st := fst (run H g init evs) in
+  exists (H : N -> N) (R : list (N * N) -> list (N * N)) (g : cfg) (evs : list event) (c : hctx),
+    let st := fst (run H R g init evs) in
     (exists i h, In i (invs st) /\ find_htlc (c_key c) (i_htlcs i) = Some h /\
                  h_state h = HSettled) /\
-    fst (snd (notify H g st c)) = RpDirect (DRes (NFail (c_key c) (c_height c) F_KeySendError)).
+    fst (snd (notify H R g st c)) = RpDirect (DRes (NFail (c_key c) (c_height c) F_KeySendError)).
 Proof.
-  exists wit_H, wit_cfg, wit_events, (wit_ctx 117).
+  exists wit_H, wit_R, wit_cfg, wit_events, (wit_ctx 117).
   destruct replay_keysend_refuted as [_ [A B]]. split; [exact A|exact B].
+Qed.
+
+(* ... and its AMP analogue: with AcceptAMP processAMP's expiry pre-check
+   answers Fail(ResultAmpError) to the replay of a settled AMP htlc. *)
+Theorem C15_replay_amp_jit_refuted :
+  exists (H : N -> N) (R : list (N * N) -> list (N * N)) (g : cfg) (evs : list event) (c : hctx),
+    let st := fst (run H R g init evs) in
+    g_amp g = true /\
+    (exists i h, In i (invs st) /\ find_htlc (c_key c) (i_htlcs i) = Some h /\
+                 h_state h = HSettled) /\
+    fst (snd (notify H R g st c)) = RpDirect (DRes (NFail (c_key c) (c_height c) F_AmpError)).
+Proof.
+  exists ampw_H, ampw_R, (mkCfg 4 false false false true),
+         [EAdd ampw_inv; ENotify (ampw_ctx 1 1 3 100)], (ampw_ctx 1 1 3 117).
+  destruct replay_amp_jit_refuted as [_ [A B]]. split; [reflexivity|]. split; [exact A|exact B].
+Qed.
+
+(* Finding C15-F2: on the KV store the record of a settled AMP htlc disappears
+   when a further complete payment arrives with the same (already settled) set
+   id; its replay is then settled as a new htlc and counted in AmtPaid again.
+   On the SQL store the record stays and the replay is answered from it. *)
+Theorem C15_amp_kv_reuse_refuted :
+  exists (H : N -> N) (R : list (N * N) -> list (N * N)) (evs1 evs2 : list event) (c : hctx),
+    let kv := mkCfg 4 false false true false in
+    let sql := mkCfg 4 false false false false in
+    let st1 := fst (run H R kv init evs1) in
+    let st2 := fst (run H R kv st1 evs2) in
+    let sq2 := fst (run H R sql (fst (run H R sql init evs1)) evs2) in
+    (exists i h, In i (invs st1) /\ find_htlc (c_key c) (i_htlcs i) = Some h /\
+                 h_state h = HSettled) /\
+    (forall i, In i (invs st2) -> find_htlc (c_key c) (i_htlcs i) = None) /\
+    (exists p, fst (snd (notify H R kv st2 c)) =
+               RpDirect (DRes (NSettle (c_key c) p (c_height c) S_Settled))) /\
+    (exists i h, In i (invs sq2) /\ find_htlc (c_key c) (i_htlcs i) = Some h /\
+                 h_state h = HSettled) /\
+    (exists p, fst (snd (notify H R sql sq2 c)) =
+               RpDirect (DRes (NSettle (c_key c) p (c_height c) S_ReplayToSettled))).
+Proof.
+  exists ampw_H, ampw_R, [EAdd ampw_inv; ENotify (ampw_ctx 1 1 3 100)],
+         [ENotify (ampw_ctx 2 2 3 100)], (ampw_ctx 1 1 3 100).
+  destruct amp_kv_reuse_refuted as (A & B & C & _ & D & E & _).
+  split; [exact A|]. split; [exact B|]. split; [eexists; exact C|]. split; [exact D|].
+  eexists; exact E.
 Qed.
 
 (* No htlc is both settled and canceled: in every state reached later, the
    htlc has exactly one record on its invoice, a settled record stays settled
-   and a canceled one stays canceled, and no other invoice holds a record of
-   that circuit key carrying the same payment hash (a record lives only on the
-   invoice whose hash the htlc arrived with). *)
+   and a canceled one stays canceled (for an AMP invoice on the SQL store as
+   well; on the KV store see C15_amp_kv_reuse_refuted), and -- for a non-AMP
+   invoice -- no other non-AMP invoice holds a record of that circuit key
+   carrying the same payment hash (a record lives only on the invoice whose
+   hash the htlc arrived with; AMP htlcs carry per-htlc hashes that are
+   unrelated to invoice hashes). *)
 Theorem C15_no_settle_and_cancel :
-  forall (H : N -> N) (g : cfg) (evs1 evs2 : list event) (st1 st2 : state) o1 o2
-         (i1 : invoice) (k : N) (h1 : htlc),
-    run H g init evs1 = (st1, o1) ->
-    run H g st1 evs2 = (st2, o2) ->
+  forall (H : N -> N) (R : list (N * N) -> list (N * N)) (g : cfg) (evs1 evs2 : list event)
+         (st1 st2 : state) o1 o2 (i1 : invoice) (k : N) (h1 : htlc),
+    run H R g init evs1 = (st1, o1) ->
+    run H R g st1 evs2 = (st2, o2) ->
     In i1 (invs st1) -> In (k, h1) (i_htlcs i1) ->
+    i_amp i1 = false \/ g_kv g = false ->
     exists i2 h2,
       In i2 (invs st2) /\ i_hash i2 = i_hash i1 /\ In (k, h2) (i_htlcs i2) /\
       (forall x, In (k, x) (i_htlcs i2) -> x = h2) /\
       (h_state h1 = HSettled -> h_state h2 = HSettled) /\
       (h_state h1 = HCanceled -> h_state h2 = HCanceled) /\
       same_rec h1 h2 /\
-      (forall j x, In j (invs st2) -> In (k, x) (i_htlcs j) -> h_hash x = h_hash h1 -> j = i2).
+      (i_amp i1 = false ->
+       forall j x, In j (invs st2) -> i_amp j = false -> In (k, x) (i_htlcs j) ->
+                   h_hash x = h_hash h1 -> j = i2).
 Proof.
-  intros H g evs1 evs2 st1 st2 o1 o2 i1 k h1 R1 R2.
+  intros H R g evs1 evs2 st1 st2 o1 o2 i1 k h1 R1 R2.
   eapply records_forward; [|eauto]. eapply run_ok; [apply init_ok|eauto].
 Qed.
